@@ -131,6 +131,77 @@ def check_program(program, cap=MODEL_CAP):
     return ("ok", {"models": len(models), "support": support, "num_vars": top, "aux": top - support})
 
 
+def decode_models(block, models):
+    """Set of sequences (per act-design factor a tuple of level indices / 'none') the models decode to."""
+    with ir.quiet():
+        t_n = block.trials_per_sample()
+        act = list(block.act_design)
+        out = set()
+        for m in models:
+            rows = []
+            for f in act:
+                sc = block.sustain_count(f)
+                row = []
+                for t in range(t_n):
+                    if not f.applies_to_trial(t // sc + 1):
+                        row.append("none")
+                        continue
+                    on = [li for li, l in enumerate(f.levels) if m[block._encode_variable(f, l, t + 1) - 1]]
+                    row.append(on[0] if len(on) == 1 else "bad")
+                rows.append(tuple(row))
+            out.add(tuple(rows))
+    return out
+
+
+def denotation_f1(ctx, res, progs, cap=3000):
+    """The statement of compile_denotes on the real code: for every generated program whose flat record
+    is in the fragment F1 (CodeSem.in_f1, evaluated by the extracted model) the models of the REAL full
+    CNF decode to exactly the sequences valid for code_sem (Sem.all_valid, evaluated by the extracted model)."""
+    import flat as flatmod
+    from common import parse_sexp
+    cases = []
+    for name, prog in progs:
+        block, _ = compile_corr.build_real(prog)
+        if block is None:
+            continue
+        try:
+            with ir.quiet():
+                if block.show_errors():
+                    continue
+                w = flatmod.flat_wire(block)
+        except Exception:  # noqa
+            continue
+        cases.append((name, prog, block, w))
+    if not cases:
+        return []
+    inf = ctx.model(["(inf1 %s)" % c[3] for c in cases])
+    f1 = [c for c, x in zip(cases, inf) if x == "true"]
+    if not f1:
+        return []
+    outs = ctx.model(["(codesem-all %s)" % c[3] for c in f1])
+    bad = []
+    for (name, prog, block, w), o in zip(f1, outs):
+        r = real_full(block)
+        if r[0] != "ok":
+            res.layer("T1-F1-denotes", False)
+            bad.append({"name": name, "program": prog, "detail": "in F1 but the real compilation gave %r" % (r[:2],)})
+            continue
+        models = enumerate_all(r[2], r[1], cap)
+        if models is None or o.startswith("!"):
+            continue
+        real = decode_models(block, models)
+        design = list(block.design)
+        aidx = [design.index(f) for f in block.act_design]
+        mod = set(tuple(tuple(q[i]) for i in aidx) for q in parse_sexp(o)[0])
+        ok = real == mod
+        res.layer("T1-F1-denotes", ok)
+        res.count(("denote", name, len(real)), nontrivial=len(real) > 0)
+        if not ok:
+            bad.append({"name": name, "program": prog,
+                        "detail": "real models decode to %d sequences, code_sem admits %d" % (len(real), len(mod))})
+    return bad
+
+
 def programs(ctx):
     n = 150 if ctx.quick else 1500
     out = [("corpus:" + nm, p) for nm, p in gen_design.corpus()]
@@ -177,6 +248,7 @@ def run(ctx, res):
         else:
             res.count(("search", name, r[1]))
             bad.append((name, prog, r[1], r[2]))
+    den = denotation_f1(ctx, res, progs)
     res.extra["search"] = stats
     res.extra["search_space"] = ("all models of the real full CNF of every generated program with at most %d models "
                                  "(%d programs decided, %d models enumerated)" % (cap, stats["checked"], stats["models"]))
@@ -188,6 +260,13 @@ def run(ctx, res):
             {"program": prog, "what": what, "detail": detail}))
     if bad:
         res.extra["failing_programs"] = [(n, w) for n, _, w, _ in bad]
+    if den and not bad:
+        d0 = den[0]
+        res.violations.append(Violation(
+            "corr:T1-F1", "statement of compile_denotes does not hold on the real code for %d F1 programs, e.g. %s: %s" % (
+                len(den), d0["name"], d0["detail"]),
+            {"layer": "T1-F1-denotes", "theorems": ["C01_sound", "C02_complete", "C03_unique_extension"],
+             "program": d0["program"], "detail": d0["detail"]}, failing_input=False))
     if mism and not bad:
         m = mism[0]
         res.violations.append(Violation(
